@@ -134,6 +134,7 @@ type slot struct {
 
 type world struct {
 	root     *storage.MemoryFilesystem
+	grave    *storage.MemoryFilesystem
 	log      *fsLog
 	slots    []*slot
 	handles  map[uint64]*handleRec
@@ -726,6 +727,18 @@ func (r *runner) emit(so stepOut) {
 		hx.CoqList(hsC, "hobs"), hx.CoqList(lsC, "lobs"), coqNames(so.gcDel), coqNames(so.gcAsked), coqNames(so.during))
 	r.terms = append(r.terms, term)
 	r.obs = append(r.obs, map[string]any{"op": so.op, "files": len(files), "read": so.read, "gc_deleted": so.gcDel})
+	// a live database that lost a table file (reported above) would panic in its next compaction: the object is abandoned
+	for _, l := range ls {
+		if len(l.Missing) > 0 {
+			if s := w.slots[l.DB]; s.state == "live" {
+				s.state = "crashed"
+				r.voidTasks(s)
+				s.db, s.waits = nil, nil
+				r.tag("abandoned-after-losing-a-table")
+				r.emit(stepOut{op: fmt.Sprintf("OCrash %d", s.idx)})
+			}
+		}
+	}
 }
 
 func (r *runner) tag(t string) { r.tags[t] = true }
@@ -940,7 +953,7 @@ func (r *runner) write(o opJ, del bool) error {
 func (r *runner) newSlot(dir int) *slot {
 	w := r.w
 	s := &slot{idx: len(w.slots), dir: dir, state: "live", ckpts: map[uint64]*task{}, waits: map[uint64]func() (recovery.CheckpointHandle, error){}, ids: map[uint64]bool{}}
-	s.fs = newVFS(w.root.WithWorkingDir(fmt.Sprintf("d%d", dir)), storage.NewMemoryFilesystem().WithWorkingDir(fmt.Sprintf("d%d", dir)), w.log)
+	s.fs = newVFS(w.root, w.grave, w.root.WithWorkingDir(fmt.Sprintf("d%d", dir)), storage.NewMemoryFilesystem().WithWorkingDir(fmt.Sprintf("d%d", dir)), w.log)
 	return s
 }
 
@@ -1180,7 +1193,7 @@ func execute(c *hx.Case) (*hx.Result, error) {
 		return def
 	}
 	slog.SetDefault(discardLogger())
-	w := &world{root: storage.NewMemoryFilesystem(), log: &fsLog{}, handles: map[uint64]*handleRec{}, arrivals: make(chan *arrival, 64),
+	w := &world{root: storage.NewMemoryFilesystem(), grave: storage.NewMemoryFilesystem(), log: &fsLog{}, handles: map[uint64]*handleRec{}, arrivals: make(chan *arrival, 64),
 		memSize: uint64(pi("mem", 60)), walSize: uint64(pi("wal", 1000)), tfs: uint64(pi("tfs", 80)), universe: map[string][]byte{},
 		nbWait: make(chan *nbCall, 16), nextDir: 1, closed: make(chan struct{})}
 	verifhook.SetTuning("dkv", dkv.VerifDBTuning{L0TableNumCompactionTrigger: pi("l0", 2), MaxSizeAmplificationPercent: pi("amp", 50),
